@@ -290,6 +290,15 @@ package iscp
 //@   makechan 1 assume ackKeyed(ch) && ackKey(ch) == msg.CallID
 //@   assert call Conn).send: has(c.upstreamCallAckCh, msg.CallID) && unheld(c.upstreamCallAckMu)   // registered before the call can be acknowledged
 //@   ensures imp(result1 == nil, result0.CallID == msg.CallID)
+// ... and once the call has been written, the wait for its ack ends without it only because the
+// caller's context (or the connection's Close, which cancels the derived context) is done - not
+// because the wire connection it was written on went away: the connection reconnects and the ack
+// is dispatched by call id, whichever wire connection it arrives on
+//@   ghostvar sent bool = false
+//@   ghostvar ctxDone bool = false
+//@   after call Conn).send: sent = (res0 == nil)
+//@   after recv ctx.Done: ctxDone = true
+//@   ensures imp(sent && result1 != nil, ctxDone)
 
 //@ func (*Conn).subscribeReply
 //@   props C16
@@ -478,6 +487,12 @@ package iscp
 //@   after recv dpgCh: asked = false
 //@   after call FlushPolicy).IsFlush: asked = true
 //@   loop 1 invariant !owe && asked   // every accepted write is put to the flush policy in its own iteration, whatever it adds
+// ... and every tick of an interval policy cuts a chunk of whatever is buffered (flush itself returns
+// at once when nothing is): no shortcut on the tick arm that looks at a counter instead of the buffer
+//@   ghostvar tickOwed bool = false
+//@   after recv Ticker: tickOwed = true
+//@   after call Upstream).flush: tickOwed = false
+//@   loop 1 invariant[C20] !tickOwed
 
 //@ func (*DataPointGroup).payloadSize
 //@   props C20
@@ -502,6 +517,12 @@ package iscp
 //@   after call dynamic field cancel: cancelled = true
 //@   assert[C01] call SendUpstreamCloseRequest: arg0 == wireConn && arg2 != nil && arg2.StreamID == u.ID && arg2.TotalDataPoints == u.totalDataPoints && arg2.FinalSequenceNumber == u.sequence.Current
 //@   ensures[C10,C05] cancelled
+// C09: closeOn runs without u.mu when it is reached from Close, next to a flush loop that may still be
+// issuing sequence numbers (atomic add): it reads the generator only through sync/atomic - no plain
+// load of the counter, and no plain copy of the generator struct (what calling a value-receiver
+// method such as CurrentValue through the pointer does)
+//@   forbid[C09] load sequenceNumberGenerator
+//@   forbid[C09] read sequenceNumberGenerator.Current
 
 // State snapshot: totals and sequence number are the current ones, one buffered group per
 // buffered data id (never more groups than the buffer holds: nothing is invented).
